@@ -121,9 +121,15 @@ def simpleTTL (low age : Nat) : Nat :=
 def simpleTTLOrig (low age : Nat) : Nat :=
   if age + sec / 2 ≤ low * sec then (low * sec - age + sec / 2) / sec else low
 
-/-- ECS cache: `roundDiv(ttl·1s − age, 1s)` if the difference is positive, else 0. -/
+/-- `roundDiv` of `internal/ecscache/cache.go` on Go's `time.Duration` (a signed integer; `/` truncates
+towards zero, which is `Int.tdiv`). -/
+def roundDiv (num denom : Int) : Int :=
+  if (decide (num < 0)) = (decide (denom < 0)) then (num + denom.tdiv 2).tdiv denom
+  else (num - denom.tdiv 2).tdiv denom
+
+/-- ECS cache: `timeLeft := ttl·1s − age`; `uint32(roundDiv(timeLeft, 1s))` if `timeLeft > 0`, else 0. -/
 def ecsTTL (low age : Nat) : Nat :=
-  if age < low * sec then (low * sec - age + sec / 2) / sec else 0
+  if 0 < (low * sec : Int) - (age : Int) then (roundDiv ((low * sec : Int) - (age : Int)) (sec : Int)).toNat else 0
 
 def setTTL (t : Nat) (r : RR) : RR := { r with ttl := t }
 def raiseTTL (t : Nat) (r : RR) : RR := { r with ttl := max r.ttl t }
@@ -145,6 +151,8 @@ structure Req where
   declined : Bool
   /-- ECS cache only: identity of the subnet GeoIP returns for the client's location (0 = zero prefix) -/
   subnet : Nat
+  /-- the request carries an OPT record (`do_` implies `edns`) -/
+  edns : Bool
 deriving DecidableEq, Repr
 
 /-- The structural content of the cache keys (the 64-bit hash of the ECS cache is taken to be
@@ -269,6 +277,13 @@ def host (r : Req) : String := r.name.toLower
 
 /-- `cr.subnet` on lookup: the zero prefix when the client declined ECS. -/
 def effSubnet (r : Req) : Nat := if r.declined then 0 else r.subnet
+
+/-- The DO bit the upstream sees: `setECS` on the cloned request creates the OPT record with DO set
+when the client sent none (`SetEdns0(size, !isResp || …)`), and keeps the client's OPT otherwise. -/
+def fwdDO (r : Req) : Bool := r.do_ || !r.edns
+
+/-- `respIsECSDependent(scope, fqdn)`; `fake` = the question name is listed in `FakeECSFQDNs`. -/
+def respDep (scope : Nat) (fake : Bool) : Bool := if scope = 0 then false else !fake
 
 def keyNo (r : Req) : Key := .noecs (host r) r.qtype r.qclass r.do_ r.fam6 r.declined
 def keyDep (r : Req) : Key := .ecs (host r) r.qtype r.qclass r.do_ r.fam6 (effSubnet r)
